@@ -43,6 +43,8 @@ Wr(e) == CASE e = "pa" -> <<"a", "\n">>            \* print('a')
            [] e = "pnn" -> <<"\n", "\n">>           \* print('\n')
            [] e = "in" -> <<"p", "\n">>             \* input('p') echoes the prompt and a newline
            [] e = "st" -> <<>>                      \* sys.settrace(None): student code drops the trace function
+           [] e = "im" -> <<>>                      \* import helper_mod: a second student file, executed by Sandbox._import
+                                                    \* inside the running execution (a nested entry point); it prints nothing
            [] OTHER -> <<>>
 Reads(e) == e = "in"
 
@@ -109,9 +111,14 @@ Exec(prog, kindOfEntry, inq) ==
         \* `with self.trace.as_filename(...)`: tracers that install a trace function put the old one back on
         \* exit, however the block is left; style "none" installs nothing and restores nothing
         \* (sys.settrace is per thread: with threaded = TRUE nothing the student does reaches the caller's thread)
+        \* a nested import re-enters the SAME tracer object (`with self.trace.as_filename(...)` in _import): each level
+        \* must put back what it found; flag tracer_not_reentrant keeps one saved slot, so the outer exit restores
+        \* pedal's own trace function and it stays installed after the call
+        imUsed == \E j \in 1..Len(EffsOf(prog)) : EffsOf(prog)[j] = "im"
         trace1 == IF file.threaded THEN pTrace
                   ELSE IF file.tracer = "none" \/ "tracer_conditional_restore" \in Flags
-                  THEN (IF stUsed THEN "changed" ELSE pTrace) ELSE "orig"
+                  THEN (IF stUsed THEN "changed" ELSE pTrace)
+                  ELSE IF imUsed /\ ~stUsed /\ "tracer_not_reentrant" \in Flags THEN "changed" ELSE "orig"
     IN [ pTrace |-> trace1, pOut |-> IF unmocked THEN "real" ELSE "patched",
          pSleep |-> IF unmocked THEN "real" ELSE "patched",
          pMods |-> IF unmocked THEN "real" ELSE "patched",
